@@ -18,6 +18,14 @@ CHECKS = {
             "pure function over a product domain whose defects sit on sign/magnitude boundaries.",
             "math/big and strconv are trusted; results that do not fit int64 are don't-care; values outside the enumerated domain are not covered.",
             "DESIGN.md §4 C10"),
+    "C02": ("model_checking",
+            "exhaustive enumeration of operator pairs/triples vs reference Pratt parser built from the documented table",
+            "All 23^2 ordered operator pairs (x operand shapes), all 23^3 triples, and prefix/chain/if/assign/jump mixes are parsed by the real parser; "
+            "the AST string must equal the grouping computed by a reference precedence-climbing parser whose level table is read from "
+            "docs/reference/operators.md at check time, and re-inserting the implied parentheses into the source must not change the parse. "
+            "The property is a universal statement over a finite operator table, so complete enumeration of pairs and triples decides it.",
+            "ast String() is trusted as the observable; forms the table does not determine are not generated; operands are atoms of 5 shapes.",
+            "DESIGN.md §4 C02"),
 }
 
 NOT_YET = "check not built yet in this round (work in progress; see DESIGN.md §4)"
